@@ -362,13 +362,24 @@ func run(c fw.Case, tier string, rec *fw.Recorder) {
 			// small worlds collide more: per history restrict senders / seqs further
 			ns := 1 + r.Intn(p.Senders)
 			nq := 1 + r.Intn(p.Seqs)
+			// sequence numbers: small consecutive ones, or (every third history) values spread over the whole uint64 range
+			seqs := make([]uint64, nq)
+			for i := range seqs {
+				seqs[i] = uint64(i)
+			}
+			if h%3 == 2 {
+				wide := []uint64{0, 1, 2, 1 << 31, 1 << 32, 1<<63 - 1, 1 << 63, 1<<63 + 5, 1<<64 - 1}
+				r.Shuffle(len(wide), func(i, j int) { wide[i], wide[j] = wide[j], wide[i] })
+				copy(seqs, wide[:nq])
+				rec.Count("histories_random_wide_sequence_numbers", 1)
+			}
 			for i := 0; i < n; i++ {
 				x := r.Intn(100)
 				switch {
 				case x < 55:
-					ops = append(ops, op{Kind: "ins", Sender: r.Intn(ns), Seq: uint64(r.Intn(nq)), Variant: r.Intn(p.Variants)})
+					ops = append(ops, op{Kind: "ins", Sender: r.Intn(ns), Seq: seqs[r.Intn(nq)], Variant: r.Intn(p.Variants)})
 				case x < 80:
-					ops = append(ops, op{Kind: "rem", Sender: r.Intn(ns), Seq: uint64(r.Intn(nq))})
+					ops = append(ops, op{Kind: "rem", Sender: r.Intn(ns), Seq: seqs[r.Intn(nq)]})
 				default:
 					ops = append(ops, op{Kind: "sel"})
 					if r.Intn(3) == 0 {
@@ -445,7 +456,7 @@ func init() {
 		Level: "exploration",
 		Rule: "histories of insert/remove/select against the real DefaultPriorityMempool with a map reference model; " +
 			"exhaustive part = every history of <= depth ops (quick 5, thorough 6) over 2 senders x seq{0,1} x 5 classes inserts + 4 removes + select, each followed by a final select and drain; " +
-			"random part = seeded histories over up to 8 senders, 5 sequence numbers, 14 tx realisations (incl. multi-message and other ctx priorities). " +
+			"random part = seeded histories over up to 8 senders, 5 sequence numbers (small consecutive ones, and in every third history values spread over the whole uint64 range: 2^31, 2^32, 2^63-1, 2^63, 2^64-1 ...), 14 tx realisations (incl. multi-message and other ctx priorities). " +
 			"distinct_nontrivial = distinct operation sequences in which >= 2 senders insert and the history has >= 2 ops; evaluations = txs yielded by select walks and checked against the oracle",
 		Assumptions: []string{
 			"(sender, sequence) unique among pending txs (inserts that would violate it are skipped) - the property's own precondition",
